@@ -12,6 +12,7 @@ import (
 	"io"
 	"log"
 	"net"
+	"runtime"
 	"strconv"
 	"strings"
 	"sync"
@@ -458,7 +459,7 @@ func main() {
 	if f.Replay == "" {
 		// the sniffer inside the proxy: the hello arrives before / after the serving context is cancelled, whole or in pieces
 		for _, mode := range []string{"legacy", "siding"} {
-			for _, when := range []string{"cancel-before-hello", "cancel-mid-hello", "no-cancel", "pairs"} {
+			for _, when := range []string{"cancel-before-hello", "cancel-mid-hello", "no-cancel", "pairs", "pairs-1p"} {
 				ops = append(ops, fmt.Sprintf("proxy %s mode=%s", when, mode))
 				cases = append(cases, nil)
 			}
@@ -592,11 +593,13 @@ func runPairOp(op string, rep *hx.Report, mode string) string {
 		}
 	}
 	time.Sleep(30 * time.Millisecond)
-	const rounds = 4
+	const rounds = 8
 	want := map[string][][]byte{}
 	var conns []net.Conn
+	var msgs [][]byte
+	// all connections are established first, so that the proxy accepts them back to back; then they speak
 	for r := 0; r < rounds; r++ {
-		for _, n := range names { // back to back, no pause between the accepts
+		for _, n := range names {
 			c, err := net.Dial("tcp", rig.Lis.Addr().String())
 			if err != nil {
 				continue
@@ -604,8 +607,13 @@ func runPairOp(op string, rep *hx.Report, mode string) string {
 			conns = append(conns, c)
 			msg := append(append([]byte{}, snix.ClientHello(n+".test")...), []byte(fmt.Sprintf("payload-%s-%d", n, r))...)
 			want[n] = append(want[n], msg)
-			go func() { c.Write(msg); c.(*net.TCPConn).CloseWrite() }()
+			msgs = append(msgs, msg)
 		}
+	}
+	time.Sleep(50 * time.Millisecond)
+	for i, c := range conns {
+		c, msg := c, msgs[i]
+		go func() { c.Write(msg); c.(*net.TCPConn).CloseWrite() }()
 	}
 	time.Sleep(1500 * time.Millisecond)
 	for _, c := range conns {
@@ -639,6 +647,13 @@ func runProxyOp(op string, rep *hx.Report) string {
 	when := ws[1]
 	mode := strings.TrimPrefix(ws[2], "mode=")
 	if when == "pairs" {
+		return runPairOp(op, rep, mode)
+	}
+	if when == "pairs-1p" {
+		// one processor: a goroutine started by the accept loop does not run before the loop blocks,
+		// so whatever the loop shares with it has been overwritten by then
+		old := runtime.GOMAXPROCS(1)
+		defer runtime.GOMAXPROCS(old)
 		return runPairOp(op, rep, mode)
 	}
 	rig, err := snix.NewRig(mode, nil, nil)
